@@ -61,6 +61,21 @@ Proof.
 Qed.
 
 (* ---- association lists *)
+Lemma assoc_del_other : forall A n n' (es : list (name * A)),
+  str_eqb n' n = false -> assoc n' (assoc_del n es) = assoc n' es.
+Proof.
+  induction es as [|[k w] r IH]; simpl; intros Hne; auto.
+  destruct (str_eqb n k) eqn:E.
+  - apply str_eqb_eq in E. subst k. rewrite Hne. auto.
+  - simpl. destruct (str_eqb n' k); auto.
+Qed.
+
+Lemma assoc_del_same : forall A n (es : list (name * A)), assoc n (assoc_del n es) = None.
+Proof.
+  induction es as [|[k w] r IH]; simpl; auto.
+  destruct (str_eqb n k) eqn:E; auto. simpl. rewrite E. auto.
+Qed.
+
 Lemma assoc_set_other : forall A n n' (v : option A) es,
   str_eqb n' n = false -> assoc n' (assoc_set n v es) = assoc n' es.
 Proof.
@@ -68,16 +83,21 @@ Proof.
   - destruct v; simpl; auto. rewrite Hne; auto.
   - destruct (str_eqb n k) eqn:E.
     + apply str_eqb_eq in E. subst k. rewrite Hne.
-      destruct v; simpl; auto. rewrite Hne; auto.
+      destruct v; simpl; [rewrite Hne|]; apply assoc_del_other; exact Hne.
     + simpl. destruct (str_eqb n' k); auto.
 Qed.
 
-Lemma assoc_set_same_some : forall A n (x : A) es, assoc n (assoc_set n (Some x) es) = Some x.
+Lemma assoc_set_same : forall A n (v : option A) es, assoc n (assoc_set n v es) = v.
 Proof.
   induction es as [|[k w] r IH]; simpl.
-  - rewrite str_eqb_refl; auto.
-  - destruct (str_eqb n k) eqn:E; simpl; rewrite E; auto.
+  - destruct v; simpl; auto. rewrite str_eqb_refl; auto.
+  - destruct (str_eqb n k) eqn:E.
+    + destruct v; simpl; [rewrite E; auto|apply assoc_del_same].
+    + simpl. rewrite E. auto.
 Qed.
+
+Lemma assoc_set_same_some : forall A n (x : A) es, assoc n (assoc_set n (Some x) es) = Some x.
+Proof. intros. apply assoc_set_same. Qed.
 
 (* ---- the tree: a change at p is invisible at every location that is not p or below p *)
 Lemma t_stat_put_other : forall p t v q,
@@ -103,3 +123,788 @@ Proof.
         destruct (assoc n es) as [c|] eqn:Ea; [|reflexivity].
         cbn [t_get]. rewrite assoc_set_other by exact Hn. reflexivity.
 Qed.
+
+(* ================================================================== Part 2: path resolution *)
+(* what the kernel resolves (following the last component) is what realpath computes *)
+Lemma kgo_pygo : forall (kr : kres_t) (pr : pyres_t) fs,
+  (forall st c cs q, kr st c cs = Some q -> pr st c cs = Some (q, true)) ->
+  forall cs st cur L, kgo kr fs st true cs cur = Some L -> pygo pr fs st cs cur = Some (L, true).
+Proof.
+  intros kr pr fs Hrec. induction cs as [|c rest IH]; intros st cur L Hk; simpl in *.
+  - inversion Hk; reflexivity.
+  - destruct (skip_comp c); [apply IH; exact Hk|].
+    destruct (is_dotdot c); [apply IH; exact Hk|].
+    destruct (sym_at fs (cur ++ [c])) as [tgt|] eqn:Es.
+    + rewrite andb_false_r in Hk.
+      destruct (mem_path (cur ++ [c]) st); [discriminate|].
+      destruct (kr ((cur ++ [c]) :: st) (link_base tgt cur) (comps_of tgt)) as [q|] eqn:Er; [|discriminate].
+      rewrite (Hrec _ _ _ _ Er).
+      destruct rest as [|c2 r2].
+      * inversion Hk; subst. reflexivity.
+      * destruct (is_dir fs q); [|discriminate]. apply IH; exact Hk.
+    + destruct (stat fs (cur ++ [c])) as [[m|i]|].
+      * apply IH; exact Hk.
+      * destruct rest; [|discriminate]. inversion Hk; subst. reflexivity.
+      * destruct rest; [|discriminate]. inversion Hk; subst. reflexivity.
+Qed.
+
+Lemma kres_pyreal : forall fuel fs st cur cs L,
+  kres fuel fs st true cur cs = Some L -> pyreal fuel fs st cur cs = Some (L, true).
+Proof.
+  induction fuel as [|f IH]; intros fs st cur cs L Hk; simpl in *; [discriminate|].
+  eapply kgo_pygo; [|exact Hk]. intros st' c cs' q Hq. apply IH. exact Hq.
+Qed.
+
+(* without following the last component: same location unless it is a symbolic link *)
+Lemma kgo_nofollow : forall kr fs cs st cur L,
+  kgo kr fs st false cs cur = Some L -> sym_at fs L = None -> kgo kr fs st true cs cur = Some L.
+Proof.
+  intros kr fs. induction cs as [|c rest IH]; intros st cur L Hk Hs; simpl in *; [exact Hk|].
+  destruct (skip_comp c); [apply IH; assumption|].
+  destruct (is_dotdot c); [apply IH; assumption|].
+  destruct (sym_at fs (cur ++ [c])) as [tgt|] eqn:Es.
+  - destruct rest as [|c2 r2]; simpl in *.
+    + inversion Hk; subst. congruence.
+    + destruct (mem_path (cur ++ [c]) st); [discriminate|].
+      destruct (kr ((cur ++ [c]) :: st) (link_base tgt cur) (comps_of tgt)) as [q|]; [|discriminate].
+      destruct (is_dir fs q); [|discriminate]. apply IH; assumption.
+  - destruct (stat fs (cur ++ [c])) as [[m|i]|]; try exact Hk. apply IH; assumption.
+Qed.
+
+Lemma kres_nofollow : forall fuel fs st cur cs L,
+  kres fuel fs st false cur cs = Some L -> sym_at fs L = None -> kres fuel fs st true cur cs = Some L.
+Proof. destruct fuel; simpl; intros; [discriminate|]. apply kgo_nofollow; assumption. Qed.
+
+Lemma kgo_nofollow_none : forall kr fs cs st cur,
+  kgo kr fs st false cs cur = None -> kgo kr fs st true cs cur = None.
+Proof.
+  intros kr fs. induction cs as [|c rest IH]; intros st cur Hk; simpl in *; [discriminate|].
+  destruct (skip_comp c); [apply IH; assumption|].
+  destruct (is_dotdot c); [apply IH; assumption|].
+  destruct (sym_at fs (cur ++ [c])) as [tgt|] eqn:Es.
+  - destruct rest as [|c2 r2]; simpl in *; [discriminate|].
+    destruct (mem_path (cur ++ [c]) st); [reflexivity|].
+    destruct (kr ((cur ++ [c]) :: st) (link_base tgt cur) (comps_of tgt)) as [q|]; [|reflexivity].
+    destruct (is_dir fs q); [|reflexivity]. apply IH; assumption.
+  - destruct (stat fs (cur ++ [c])) as [[m|i]|]; try exact Hk. apply IH; assumption.
+Qed.
+
+Lemma kres_nofollow_none : forall fuel fs st cur cs,
+  kres fuel fs st false cur cs = None -> kres fuel fs st true cur cs = None.
+Proof. destruct fuel; simpl; intros; [reflexivity|]. apply kgo_nofollow_none; assumption. Qed.
+
+(* realpath only looks at which locations are symbolic links *)
+Lemma pygo_ext : forall (pr pr' : pyres_t) fs fs',
+  (forall q, sym_at fs' q = sym_at fs q) ->
+  (forall st c cs, pr' st c cs = pr st c cs) ->
+  forall cs st cur, pygo pr' fs' st cs cur = pygo pr fs st cs cur.
+Proof.
+  intros pr pr' fs fs' Hs Hr. induction cs as [|c rest IH]; intros st cur; simpl; [reflexivity|].
+  destruct (skip_comp c); [apply IH|].
+  destruct (is_dotdot c); [apply IH|].
+  rewrite Hs. destruct (sym_at fs (cur ++ [c])) as [tgt|]; [|apply IH].
+  destruct (mem_path (cur ++ [c]) st); [reflexivity|].
+  rewrite Hr. destruct (pr ((cur ++ [c]) :: st) (link_base tgt cur) (comps_of tgt)) as [[q [|]]|]; auto.
+Qed.
+
+Lemma pyreal_ext : forall fuel fs fs',
+  (forall q, sym_at fs' q = sym_at fs q) ->
+  forall st cur cs, pyreal fuel fs' st cur cs = pyreal fuel fs st cur cs.
+Proof.
+  induction fuel as [|f IH]; intros fs fs' Hs st cur cs; simpl; [reflexivity|].
+  apply pygo_ext; [exact Hs|]. intros. apply IH. exact Hs.
+Qed.
+
+Lemma realpath_ext : forall fuel fs fs' cs,
+  (forall q, sym_at fs' q = sym_at fs q) -> realpath fuel fs' cs = realpath fuel fs cs.
+Proof. intros. unfold realpath. rewrite (pyreal_ext fuel fs fs') by assumption. reflexivity. Qed.
+
+(* the filter's verdict about a path bounds where system calls on it act *)
+Lemma realpath_kres_follow : forall fuel fs cs L,
+  kres fuel fs [] true [] cs = Some L -> realpath fuel fs cs = Some L.
+Proof. intros. unfold realpath. rewrite (kres_pyreal _ _ _ _ _ _ H). reflexivity. Qed.
+
+(* ================================================================== Part 3: more about the tree *)
+Lemma t_get_none_below : forall p t r, t_get t p = None -> t_get t (p ++ r) = None.
+Proof.
+  induction p as [|n p IH]; intros t r Hn; simpl in *; [discriminate|].
+  destruct t as [m es|i]; auto. destruct (assoc n es); auto.
+Qed.
+
+Lemma t_get_leaf_below : forall p t r i, t_get t p = Some (TLeaf i) -> r <> [] -> t_get t (p ++ r) = None.
+Proof.
+  induction p as [|n p IH]; intros t r i Hn Hr; simpl in *.
+  - inversion Hn; subst. destruct r; [contradiction|reflexivity].
+  - destruct t as [m es|j]; auto. destruct (assoc n es); auto. eapply IH; eauto.
+Qed.
+
+Lemma t_stat_none_below : forall t p r, t_stat t p = None -> t_stat t (p ++ r) = None.
+Proof.
+  unfold t_stat. intros t p r Hn. destruct (t_get t p) eqn:E; [discriminate|].
+  rewrite (t_get_none_below _ _ r E). reflexivity.
+Qed.
+
+(* an existing location has existing ancestors, and they are directories *)
+Lemma t_stat_ancestor_dir : forall p t r, r <> [] -> t_stat t (p ++ r) <> None ->
+  exists m, t_stat t p = Some (SDir m).
+Proof.
+  unfold t_stat. intros p t r Hr Hs.
+  destruct (t_get t p) as [[m es|i]|] eqn:E.
+  - eexists; reflexivity.
+  - rewrite (t_get_leaf_below _ _ _ _ E Hr) in Hs. contradiction.
+  - rewrite (t_get_none_below _ _ r E) in Hs. contradiction.
+Qed.
+
+(* a leaf seen after a change at p is an old leaf or the one just put *)
+Lemma t_stat_put_leaf : forall p t v q i,
+  t_stat (t_put t p v) q = Some (SLeaf i) -> t_stat t q = Some (SLeaf i) \/ v = Some (SLeaf i).
+Proof.
+  unfold t_stat.
+  induction p as [|n r IH]; intros t v q i Hq.
+  - destruct t as [m es|j]; simpl in Hq.
+    + destruct v as [[m'|j]|]; auto.
+      destruct q; simpl in *; auto.
+    + auto.
+  - destruct t as [m es|j]; [|auto].
+    destruct q as [|n' q'].
+    + simpl in Hq. destruct r; [discriminate|]. destruct (assoc n es); discriminate.
+    + destruct (str_eqb n' n) eqn:En.
+      * apply str_eqb_eq in En. subst n'.
+        destruct r as [|n2 r2]; cbn [t_put] in Hq.
+        { cbn [t_get] in Hq. rewrite assoc_set_same in Hq. cbn [t_get].
+          destruct v as [[m'|j]|]; simpl in Hq.
+          - destruct (assoc n es) as [[m0 ces|j0]|] eqn:Ea.
+            + left. destruct q'; simpl in *; [discriminate|exact Hq].
+            + destruct q'; simpl in Hq; discriminate.
+            + destruct q'; simpl in Hq; discriminate.
+          - destruct q'; simpl in Hq; [|discriminate]. inversion Hq; subst. auto.
+          - discriminate. }
+        destruct (assoc n es) as [c|] eqn:Ea; [|auto].
+        cbn [t_get] in *. rewrite assoc_set_same in Hq. rewrite Ea. eapply IH. exact Hq.
+      * destruct r as [|n2 r2]; cbn [t_put] in Hq.
+        { cbn [t_get] in *. rewrite assoc_set_other in Hq by exact En. auto. }
+        destruct (assoc n es) as [c|] eqn:Ea; [|auto].
+        cbn [t_get] in *. rewrite assoc_set_other in Hq by exact En. auto.
+Qed.
+
+(* below a removed or newly created node there is nothing; at the node there is what was put or nothing *)
+Lemma t_stat_put_at_below : forall p t v q,
+  p <> [] -> is_prefix p q = true ->
+  (v = None \/ t_get t p = None) ->
+  (q = p /\ (t_stat (t_put t p v) q = v \/ t_stat (t_put t p v) q = None))
+  \/ (q <> p /\ t_stat (t_put t p v) q = None).
+Proof.
+  unfold t_stat.
+  induction p as [|n r IH]; intros t v q Hp Hq Hv; [contradiction|].
+  destruct q as [|n' q']; [discriminate|]. simpl in Hq.
+  apply andb_true_iff in Hq as [En Hq']. apply str_eqb_eq in En. subst n'.
+  destruct t as [m es|j].
+  - destruct r as [|n2 r2].
+    + cbn [t_put t_get]. rewrite assoc_set_same.
+      destruct q' as [|c q''].
+      * left. split; [reflexivity|]. destruct v as [[m'|i]|]; simpl; auto.
+        destruct Hv as [Hv|Hv]; [discriminate|]. simpl in Hv.
+        destruct (assoc n es); [discriminate|]. simpl. auto.
+      * right. split; [intros E; inversion E|].
+        destruct v as [[m'|i]|]; simpl; auto.
+        destruct Hv as [Hv|Hv]; [discriminate|]. simpl in Hv.
+        destruct (assoc n es); [discriminate|]. simpl. reflexivity.
+    + cbn [t_put]. destruct (assoc n es) as [c|] eqn:Ea.
+      * cbn [t_get]. rewrite assoc_set_same.
+        assert (Hv' : v = None \/ t_get c (n2 :: r2) = None).
+        { destruct Hv as [Hv|Hv]; [auto|]. right. simpl in Hv. rewrite Ea in Hv. exact Hv. }
+        destruct (IH c v q' ltac:(discriminate) Hq' Hv') as [[E H1]|[E H1]].
+        { left. split; [subst; reflexivity|exact H1]. }
+        { right. split; [intros E2; inversion E2; contradiction|exact H1]. }
+      * cbn [t_get]. rewrite Ea.
+        destruct (path_eqb q' (n2 :: r2)) eqn:Eq.
+        { apply path_eqb_eq in Eq. subst q'. left. split; [reflexivity|]. right. reflexivity. }
+        { right. split; [|reflexivity]. intros E. inversion E; subst.
+          rewrite (proj2 (path_eqb_eq _ _) eq_refl) in Eq. discriminate. }
+  - cbn [t_put t_get].
+    destruct (path_eqb q' r) eqn:Eq.
+    + apply path_eqb_eq in Eq. subst. left. split; [reflexivity|]. right. reflexivity.
+    + right. split; [|reflexivity]. intros E. inversion E; subst.
+      rewrite (proj2 (path_eqb_eq _ _) eq_refl) in Eq. discriminate.
+Qed.
+
+(* ================================================================== Part 4: the confinement invariant *)
+Lemma ino_get_set_same : forall tab i v, ino_get (ino_set tab i v) i = Some v.
+Proof.
+  induction tab as [|[k w] r IH]; intros i v; simpl.
+  - rewrite N.eqb_refl. reflexivity.
+  - destruct (k =? i) eqn:E; simpl; rewrite E; auto.
+Qed.
+
+Lemma ino_get_set_other : forall tab i j v, i <> j -> ino_get (ino_set tab i v) j = ino_get tab j.
+Proof.
+  induction tab as [|[k w] r IH]; intros i j v Hne; simpl.
+  - destruct (i =? j) eqn:E; [apply N.eqb_eq in E; contradiction|reflexivity].
+  - destruct (k =? i) eqn:E; simpl.
+    + apply N.eqb_eq in E. subst k. destruct (i =? j) eqn:E2; [apply N.eqb_eq in E2; contradiction|reflexivity].
+    + destruct (k =? j); auto.
+Qed.
+
+Section Confine.
+  Variable ok : path -> bool.
+  Hypothesis ok_ext : forall p r, ok p = true -> ok (p ++ r) = true.
+
+  Lemma ok_not_below : forall l q, ok l = true -> ok q = false -> is_prefix l q = false.
+  Proof.
+    intros l q Hl Hq. destruct (is_prefix l q) eqn:E; auto.
+    apply is_prefix_app in E as [r ->]. rewrite (ok_ext _ r Hl) in Hq. discriminate.
+  Qed.
+
+  Record inv (fs0 fs : fsys) : Prop := mkInv {
+    inv_out : same_outside ok fs0 fs;
+    inv_fresh : forall p i, stat fs p = Some (SLeaf i) -> i < f_next fs;
+    inv_sep : forall p q i, ok p = true -> ok q = false ->
+              stat fs p = Some (SLeaf i) -> stat fs q = Some (SLeaf i) -> False;
+    inv_nosym : forall q, ok q = false -> sym_at fs q = None
+  }.
+
+  Lemma sym_at_outside_eq : forall fs fs' q,
+    stat fs' q = stat fs q ->
+    (forall i, stat fs q = Some (SLeaf i) -> inode_of fs' i = inode_of fs i) ->
+    sym_at fs' q = sym_at fs q.
+  Proof.
+    intros fs fs' q Hs Hi. unfold sym_at. rewrite Hs.
+    destruct (stat fs q) as [[m|i]|]; auto. rewrite (Hi i eq_refl). reflexivity.
+  Qed.
+
+  (* a step that leaves every not-ok location and the inodes named there alone *)
+  Lemma inv_step : forall fs0 fs fs',
+    inv fs0 fs ->
+    (forall q, ok q = false -> stat fs' q = stat fs q) ->
+    (forall q i, ok q = false -> stat fs q = Some (SLeaf i) -> inode_of fs' i = inode_of fs i) ->
+    (forall p i, stat fs' p = Some (SLeaf i) -> i < f_next fs') ->
+    (forall p q i, ok p = true -> ok q = false ->
+       stat fs' p = Some (SLeaf i) -> stat fs q = Some (SLeaf i) -> False) ->
+    inv fs0 fs'.
+  Proof.
+    intros fs0 fs fs' [Ho Hf Hs Hn] H1 H2 H3 H4. constructor.
+    - intros q Hq. destruct (Ho q Hq) as [Ha Hb]. split.
+      + rewrite H1 by exact Hq. exact Ha.
+      + intros i Hi. rewrite <- Ha in Hi. rewrite (H2 q i Hq Hi). apply Hb. rewrite <- Ha. exact Hi.
+    - exact H3.
+    - intros p q i Hp Hq Sp Sq. rewrite H1 in Sq by exact Hq. eapply H4; eauto.
+    - intros q Hq. rewrite <- (Hn q Hq). apply sym_at_outside_eq; [apply H1; exact Hq|].
+      intros i Hi. eapply H2; eauto.
+  Qed.
+
+  (* a directory made, re-moded, or anything removed, at an ok location *)
+  Lemma inv_put_nonleaf : forall fs0 fs l v,
+    inv fs0 fs -> ok l = true -> (forall i, v <> Some (SLeaf i)) -> inv fs0 (put fs l v).
+  Proof.
+    intros fs0 fs l v Hi Hl Hv. apply (inv_step fs0 fs); auto.
+    - intros q Hq. unfold stat, put; simpl. apply t_stat_put_other. apply ok_not_below; assumption.
+    - intros p i Hp. unfold stat, put in Hp; simpl in Hp.
+      apply t_stat_put_leaf in Hp as [Hp|Hp]; [|exfalso; eapply Hv; eauto].
+      simpl. eapply inv_fresh; eauto.
+    - intros p q i Hp Hq Sp Sq. unfold stat, put in Sp; simpl in Sp.
+      apply t_stat_put_leaf in Sp as [Sp|Sp]; [|eapply Hv; eauto].
+      eapply inv_sep; eauto.
+  Qed.
+
+  (* another name for an inode that already has an ok name *)
+  Lemma inv_put_link : forall fs0 fs l ls i,
+    inv fs0 fs -> ok l = true -> ok ls = true -> stat fs ls = Some (SLeaf i) ->
+    inv fs0 (put fs l (Some (SLeaf i))).
+  Proof.
+    intros fs0 fs l ls i Hi Hl Hls Hs. apply (inv_step fs0 fs); auto.
+    - intros q Hq. unfold stat, put; simpl. apply t_stat_put_other. apply ok_not_below; assumption.
+    - intros p j Hp. unfold stat, put in Hp; simpl in Hp.
+      apply t_stat_put_leaf in Hp as [Hp|Hp]; simpl.
+      + eapply inv_fresh; eauto.
+      + inversion Hp; subst. eapply inv_fresh; eauto.
+    - intros p q j Hp Hq Sp Sq. unfold stat, put in Sp; simpl in Sp.
+      apply t_stat_put_leaf in Sp as [Sp|Sp].
+      + eapply inv_sep; eauto.
+      + inversion Sp; subst. eapply (inv_sep _ _ Hi ls q); eauto.
+  Qed.
+
+  (* a new inode at an ok location *)
+  Lemma inv_create : forall fs0 fs l v,
+    inv fs0 fs -> ok l = true -> inv fs0 (create fs l v).
+  Proof.
+    intros fs0 fs l v Hi Hl. apply (inv_step fs0 fs); auto.
+    - intros q Hq. unfold stat, create; simpl. apply t_stat_put_other. apply ok_not_below; assumption.
+    - intros q i Hq Sq. unfold inode_of, create; simpl. apply ino_get_set_other.
+      pose proof (inv_fresh _ _ Hi q i Sq). lia.
+    - intros p i Hp. unfold stat, create in Hp; simpl in Hp.
+      apply t_stat_put_leaf in Hp as [Hp|Hp]; simpl.
+      + pose proof (inv_fresh _ _ Hi p i Hp). lia.
+      + inversion Hp; subst. lia.
+    - intros p q i Hp Hq Sp Sq. unfold stat, create in Sp; simpl in Sp.
+      apply t_stat_put_leaf in Sp as [Sp|Sp].
+      + eapply inv_sep; eauto.
+      + inversion Sp; subst. pose proof (inv_fresh _ _ Hi q _ Sq). lia.
+  Qed.
+
+  (* new content or mode for an inode that has an ok name *)
+  Lemma inv_set_inode : forall fs0 fs l i v,
+    inv fs0 fs -> ok l = true -> stat fs l = Some (SLeaf i) -> inv fs0 (set_inode fs i v).
+  Proof.
+    intros fs0 fs l i v Hi Hl Hs. apply (inv_step fs0 fs); auto.
+    - intros q j Hq Sq. unfold inode_of, set_inode; simpl. apply ino_get_set_other.
+      intros E. subst j. eapply (inv_sep _ _ Hi l q); eauto.
+    - intros p j Hp. simpl. eapply inv_fresh; eauto.
+    - intros p q j Hp Hq Sp Sq. eapply inv_sep; eauto.
+  Qed.
+End Confine.
+
+(* ================================================================== Part 5: steps that do not change which locations are symbolic links *)
+Definition sym_ext (fs fs' : fsys) : Prop := forall q, sym_at fs' q = sym_at fs q.
+
+Lemma sym_ext_refl : forall fs, sym_ext fs fs.
+Proof. intros fs q. reflexivity. Qed.
+
+Lemma sym_ext_trans : forall a b c, sym_ext a b -> sym_ext b c -> sym_ext a c.
+Proof. intros a b c H1 H2 q. rewrite H2. apply H1. Qed.
+
+Definition fresh_ok (fs : fsys) : Prop := forall p i, stat fs p = Some (SLeaf i) -> i < f_next fs.
+
+Lemma stat_root_some : forall fs, stat fs [] <> None.
+Proof. intros fs. unfold stat, t_stat. simpl. discriminate. Qed.
+
+Lemma sym_at_put_newdir : forall fs l m, stat fs l = None -> sym_ext fs (put fs l (Some (SDir m))).
+Proof.
+  intros fs l m Hn q. unfold sym_at.
+  destruct (is_prefix l q) eqn:Ep.
+  - assert (Hl : l <> []) by (intros E; subst; apply (stat_root_some fs); exact Hn).
+    assert (Hg : t_get (f_root fs) l = None).
+    { unfold stat, t_stat in Hn. destruct (t_get (f_root fs) l); [discriminate|reflexivity]. }
+    assert (Hold : stat fs q = None).
+    { apply is_prefix_app in Ep as [r ->]. apply t_stat_none_below. exact Hn. }
+    rewrite Hold.
+    destruct (t_stat_put_at_below l (f_root fs) (Some (SDir m)) q Hl Ep (or_intror Hg)) as [[E [H1|H1]]|[E H1]];
+      unfold stat, put; simpl; rewrite H1; reflexivity.
+  - unfold stat, put; simpl. rewrite t_stat_put_other by exact Ep. reflexivity.
+Qed.
+
+Lemma sym_at_create_nonsym : forall fs l v,
+  fresh_ok fs -> stat fs l = None -> i_kind v <> KSym -> sym_ext fs (create fs l v).
+Proof.
+  intros fs l v Hf Hn Hk q. unfold sym_at.
+  destruct (is_prefix l q) eqn:Ep.
+  - assert (Hl : l <> []) by (intros E; subst; apply (stat_root_some fs); exact Hn).
+    assert (Hg : t_get (f_root fs) l = None).
+    { unfold stat, t_stat in Hn. destruct (t_get (f_root fs) l); [discriminate|reflexivity]. }
+    assert (Hold : stat fs q = None).
+    { apply is_prefix_app in Ep as [r ->]. apply t_stat_none_below. exact Hn. }
+    rewrite Hold.
+    destruct (t_stat_put_at_below l (f_root fs) (Some (SLeaf (f_next fs))) q Hl Ep (or_intror Hg)) as [[E [H1|H1]]|[E H1]];
+      unfold stat, create; simpl; rewrite H1; try reflexivity.
+    unfold inode_of; simpl. rewrite ino_get_set_same. destruct v as [[] d m]; simpl in *; congruence.
+  - unfold stat, create; simpl. rewrite t_stat_put_other by exact Ep.
+    destruct (t_stat (f_root fs) q) as [[m|i]|] eqn:Es; auto.
+    unfold inode_of; simpl. rewrite ino_get_set_other; [reflexivity|].
+    pose proof (Hf q i Es). lia.
+Qed.
+
+Lemma sym_at_set_inode_nonsym : forall fs i v w,
+  inode_of fs i = Some w -> i_kind w <> KSym -> i_kind v <> KSym -> sym_ext fs (set_inode fs i v).
+Proof.
+  intros fs i v w Hw Hkw Hkv q. unfold sym_at, stat, set_inode; simpl.
+  destruct (t_stat (f_root fs) q) as [[m|j]|]; auto.
+  unfold inode_of; simpl. destruct (N.eq_dec i j) as [E|E].
+  - subst j. rewrite ino_get_set_same. unfold inode_of in Hw. rewrite Hw.
+    destruct v as [[] d m]; destruct w as [[] d' m']; simpl in *; congruence.
+  - rewrite ino_get_set_other by exact E. reflexivity.
+Qed.
+
+Lemma sys_mkdir_symext : forall fuel fs cs m, sym_ext fs (fst (sys_mkdir fuel fs cs m)).
+Proof.
+  intros. unfold sys_mkdir. destruct (kres fuel fs [] false [] cs) as [l|]; [|apply sym_ext_refl].
+  destruct (stat fs l) eqn:E; [apply sym_ext_refl|]. simpl. apply sym_at_put_newdir. exact E.
+Qed.
+
+Lemma sys_write_symext : forall fuel fs cs d, fresh_ok fs -> sym_ext fs (fst (sys_write fuel fs cs d)).
+Proof.
+  intros fuel fs cs d Hf. unfold sys_write. destruct (kres fuel fs [] true [] cs) as [l|]; [|apply sym_ext_refl].
+  destruct (stat fs l) as [[m|i]|] eqn:E; simpl.
+  - apply sym_ext_refl.
+  - destruct (inode_of fs i) as [[[] dd mm]|] eqn:Ei; simpl; try apply sym_ext_refl.
+    eapply sym_at_set_inode_nonsym; eauto; simpl; discriminate.
+  - apply sym_at_create_nonsym; auto. simpl. discriminate.
+Qed.
+
+Lemma sys_mknode_symext : forall fuel fs cs v,
+  fresh_ok fs -> i_kind v <> KSym -> sym_ext fs (fst (sys_mknode fuel fs cs v)).
+Proof.
+  intros fuel fs cs v Hf Hk. unfold sys_mknode. destruct (kres fuel fs [] false [] cs) as [l|]; [|apply sym_ext_refl].
+  destruct (stat fs l) eqn:E; [apply sym_ext_refl|]. simpl. apply sym_at_create_nonsym; auto.
+Qed.
+
+(* ================================================================== Part 6: system calls on a path the filter accepted *)
+Section Ops.
+  Variable ok : path -> bool.
+  Hypothesis ok_ext : forall p r, ok p = true -> ok (p ++ r) = true.
+  Variable dest : path.
+  Hypothesis ok_dest : forall q, is_prefix dest q = true -> ok q = true.
+  Variable fuel : nat.
+
+  (* the verdict of _tarExtractFilter about the path cs in state fs *)
+  Definition guard (fs : fsys) (cs : list name) : Prop := inside dest (realpath fuel fs cs) = true.
+
+  Lemma guard_ext : forall fs fs' cs, sym_ext fs fs' -> guard fs cs -> guard fs' cs.
+  Proof. intros fs fs' cs He Hg. unfold guard in *. rewrite (realpath_ext fuel fs fs' cs He). exact Hg. Qed.
+
+  Lemma loc_follow : forall fs cs l, guard fs cs -> kres fuel fs [] true [] cs = Some l -> ok l = true.
+  Proof.
+    intros fs cs l Hg Hk. unfold guard in Hg. rewrite (realpath_kres_follow _ _ _ _ Hk) in Hg.
+    simpl in Hg. apply ok_dest. exact Hg.
+  Qed.
+
+  Lemma loc_nofollow : forall fs0 fs cs l,
+    inv ok fs0 fs -> guard fs cs -> kres fuel fs [] false [] cs = Some l -> ok l = true.
+  Proof.
+    intros fs0 fs cs l Hi Hg Hk. destruct (sym_at fs l) eqn:Es.
+    - destruct (ok l) eqn:Eo; auto. rewrite (inv_nosym _ _ _ Hi l Eo) in Es. discriminate.
+    - eapply loc_follow; eauto. apply kres_nofollow; assumption.
+  Qed.
+
+  Lemma sys_write_inv : forall fs0 fs cs d,
+    inv ok fs0 fs -> guard fs cs -> inv ok fs0 (fst (sys_write fuel fs cs d)).
+  Proof.
+    intros fs0 fs cs d Hi Hg. unfold sys_write.
+    destruct (kres fuel fs [] true [] cs) as [l|] eqn:Ek; [|exact Hi].
+    pose proof (loc_follow _ _ _ Hg Ek) as Hl.
+    destruct (stat fs l) as [[m|i]|] eqn:Es; simpl; auto.
+    - destruct (inode_of fs i) as [[[] dd mm]|]; simpl; auto. eapply inv_set_inode; eauto.
+    - apply inv_create; auto.
+  Qed.
+
+  Lemma sys_chmod_inv : forall fs0 fs cs m,
+    inv ok fs0 fs -> guard fs cs -> inv ok fs0 (fst (sys_chmod fuel fs cs m)).
+  Proof.
+    intros fs0 fs cs m Hi Hg. unfold sys_chmod.
+    destruct (kres fuel fs [] true [] cs) as [l|] eqn:Ek; [|exact Hi].
+    pose proof (loc_follow _ _ _ Hg Ek) as Hl.
+    destruct (stat fs l) as [[m0|i]|] eqn:Es; simpl; auto.
+    - apply inv_put_nonleaf; auto. intros i. discriminate.
+    - destruct (inode_of fs i) as [[k dd mm]|]; simpl; auto. eapply inv_set_inode; eauto.
+  Qed.
+
+  Lemma sys_mkdir_inv : forall fs0 fs cs m,
+    inv ok fs0 fs -> guard fs cs -> inv ok fs0 (fst (sys_mkdir fuel fs cs m)).
+  Proof.
+    intros fs0 fs cs m Hi Hg. unfold sys_mkdir.
+    destruct (kres fuel fs [] false [] cs) as [l|] eqn:Ek; [|exact Hi].
+    pose proof (loc_nofollow _ _ _ _ Hi Hg Ek) as Hl.
+    destruct (stat fs l); simpl; auto. apply inv_put_nonleaf; auto. intros i. discriminate.
+  Qed.
+
+  Lemma sys_mknode_inv : forall fs0 fs cs v,
+    inv ok fs0 fs -> guard fs cs -> inv ok fs0 (fst (sys_mknode fuel fs cs v)).
+  Proof.
+    intros fs0 fs cs v Hi Hg. unfold sys_mknode.
+    destruct (kres fuel fs [] false [] cs) as [l|] eqn:Ek; [|exact Hi].
+    pose proof (loc_nofollow _ _ _ _ Hi Hg Ek) as Hl.
+    destruct (stat fs l); simpl; auto. apply inv_create; auto.
+  Qed.
+
+  Lemma sys_unlink_inv : forall fs0 fs cs,
+    inv ok fs0 fs -> guard fs cs -> inv ok fs0 (fst (sys_unlink fuel fs cs)).
+  Proof.
+    intros fs0 fs cs Hi Hg. unfold sys_unlink.
+    destruct (kres fuel fs [] false [] cs) as [l|] eqn:Ek; [|exact Hi].
+    pose proof (loc_nofollow _ _ _ _ Hi Hg Ek) as Hl.
+    destruct (stat fs l) as [[m|i]|]; simpl; auto. apply inv_put_nonleaf; auto. intros j. discriminate.
+  Qed.
+
+  (* hard link: source and destination both accepted by the filter *)
+  Lemma sys_link_inv : forall fs0 fs src dst,
+    inv ok fs0 fs -> guard fs src -> guard fs dst -> inv ok fs0 (fst (sys_link fuel fs src dst)).
+  Proof.
+    intros fs0 fs src dst Hi Hs Hd. unfold sys_link.
+    destruct (kres fuel fs [] false [] src) as [ls|] eqn:Eks; [|exact Hi].
+    pose proof (loc_nofollow _ _ _ _ Hi Hs Eks) as Hls.
+    destruct (stat fs ls) as [[m|i]|] eqn:Ess; simpl; auto.
+    destruct (kres fuel fs [] false [] dst) as [ld|] eqn:Ekd; [|exact Hi].
+    pose proof (loc_nofollow _ _ _ _ Hi Hd Ekd) as Hld.
+    destruct (stat fs ld); simpl; auto. apply (inv_put_link ok ok_ext fs0 fs ld ls i); auto.
+  Qed.
+End Ops.
+
+(* ================================================================== Part 7: the destination stays a directory *)
+Lemma t_get_put_chmod : forall p t m' m es r,
+  t_get t p = Some (TDir m es) ->
+  t_get (t_put t p (Some (SDir m'))) (p ++ r) =
+  match r with [] => Some (TDir m' es) | _ :: _ => t_get t (p ++ r) end.
+Proof.
+  induction p as [|n p' IH]; intros t m' m es r Hg.
+  - simpl in Hg. inversion Hg; subst. simpl. destruct r; reflexivity.
+  - destruct t as [m0 es0|j]; [|discriminate]. simpl in Hg.
+    destruct (assoc n es0) as [c|] eqn:Ea; [|discriminate].
+    destruct p' as [|n2 p2].
+    + simpl in Hg. inversion Hg; subst c. cbn [t_put app t_get]. rewrite assoc_set_same. rewrite Ea. simpl.
+      destruct r; reflexivity.
+    + cbn [t_put]. rewrite Ea. cbn [app t_get]. rewrite assoc_set_same. rewrite Ea.
+      apply (IH c m' m es r Hg).
+Qed.
+
+Lemma is_dir_put : forall fs l v d,
+  is_dir fs d = true ->
+  match v with
+  | None => exists i, stat fs l = Some (SLeaf i)
+  | Some (SLeaf _) => stat fs l = None
+  | Some (SDir _) => stat fs l = None \/ is_dir fs l = true
+  end ->
+  is_dir (put fs l v) d = true.
+Proof.
+  intros fs l v d Hd Hv. unfold is_dir, stat, put in *. simpl.
+  destruct (is_prefix l d) eqn:Ep.
+  - apply is_prefix_app in Ep as [r ->].
+    assert (Hne : t_stat (f_root fs) l <> None).
+    { intros E. rewrite (t_stat_none_below _ _ r E) in Hd. discriminate. }
+    destruct v as [[m'|i]|].
+    + destruct Hv as [Hv|Hv]; [contradiction|].
+      unfold t_stat in *. destruct (t_get (f_root fs) l) as [[m es|j]|] eqn:Eg; try discriminate.
+      rewrite (t_get_put_chmod _ _ m' m es r Eg).
+      destruct r; [reflexivity|]. exact Hd.
+    + contradiction.
+    + destruct Hv as [i Hv]. unfold t_stat in *.
+      destruct (t_get (f_root fs) l) as [[m es|j]|] eqn:Eg; try discriminate.
+      destruct r.
+      * rewrite app_nil_r in Hd. rewrite Eg in Hd. discriminate.
+      * rewrite (t_get_leaf_below _ _ (n :: r) _ Eg) in Hd by discriminate. discriminate.
+  - rewrite t_stat_put_other by exact Ep. exact Hd.
+Qed.
+
+Lemma is_dir_create : forall fs l v d, is_dir fs d = true -> stat fs l = None -> is_dir (create fs l v) d = true.
+Proof.
+  intros fs l v d Hd Hn.
+  pose proof (is_dir_put fs l (Some (SLeaf (f_next fs))) d Hd Hn) as H. unfold is_dir, stat, put, create in *. simpl in *. exact H.
+Qed.
+
+Lemma is_dir_set_inode : forall fs i v d, is_dir (set_inode fs i v) d = is_dir fs d.
+Proof. reflexivity. Qed.
+
+Lemma sys_mkdir_dir : forall fuel fs cs m d, is_dir fs d = true -> is_dir (fst (sys_mkdir fuel fs cs m)) d = true.
+Proof.
+  intros. unfold sys_mkdir. destruct (kres fuel fs [] false [] cs) as [l|]; auto.
+  destruct (stat fs l) eqn:E; auto. simpl. apply is_dir_put; auto.
+Qed.
+
+Lemma sys_mknode_dir : forall fuel fs cs v d, is_dir fs d = true -> is_dir (fst (sys_mknode fuel fs cs v)) d = true.
+Proof.
+  intros. unfold sys_mknode. destruct (kres fuel fs [] false [] cs) as [l|]; auto.
+  destruct (stat fs l) eqn:E; auto. simpl. apply is_dir_create; auto.
+Qed.
+
+Lemma sys_unlink_dir : forall fuel fs cs d, is_dir fs d = true -> is_dir (fst (sys_unlink fuel fs cs)) d = true.
+Proof.
+  intros. unfold sys_unlink. destruct (kres fuel fs [] false [] cs) as [l|]; auto.
+  destruct (stat fs l) as [[m|i]|] eqn:E; auto. simpl. apply is_dir_put; eauto.
+Qed.
+
+Lemma sys_link_dir : forall fuel fs a b d, is_dir fs d = true -> is_dir (fst (sys_link fuel fs a b)) d = true.
+Proof.
+  intros. unfold sys_link. destruct (kres fuel fs [] false [] a) as [ls|]; auto.
+  destruct (stat fs ls) as [[m|i]|]; auto.
+  destruct (kres fuel fs [] false [] b) as [ld|]; auto.
+  destruct (stat fs ld) eqn:E; auto. simpl. apply is_dir_put; auto.
+Qed.
+
+Lemma sys_write_dir : forall fuel fs cs x d, is_dir fs d = true -> is_dir (fst (sys_write fuel fs cs x)) d = true.
+Proof.
+  intros. unfold sys_write. destruct (kres fuel fs [] true [] cs) as [l|]; auto.
+  destruct (stat fs l) as [[m|i]|] eqn:E; auto.
+  - destruct (inode_of fs i) as [[[] dd mm]|]; auto.
+  - simpl. apply is_dir_create; auto.
+Qed.
+
+Lemma sys_chmod_dir : forall fuel fs cs m d, is_dir fs d = true -> is_dir (fst (sys_chmod fuel fs cs m)) d = true.
+Proof.
+  intros. unfold sys_chmod. destruct (kres fuel fs [] true [] cs) as [l|]; auto.
+  destruct (stat fs l) as [[m0|i]|] eqn:E; auto.
+  - simpl. apply is_dir_put; auto. right. unfold is_dir. rewrite E. reflexivity.
+  - destruct (inode_of fs i) as [[k dd mm]|]; auto.
+Qed.
+
+(* ================================================================== Part 8: os.makedirs below an accepted path *)
+Definition nodd (cs : list name) : Prop := existsb is_dotdot cs = false.
+
+Lemma nodd_app : forall a b, nodd (a ++ b) -> nodd a /\ nodd b.
+Proof. unfold nodd. intros a b H. rewrite existsb_app in H. apply orb_false_iff in H. exact H. Qed.
+
+Lemma pygo_app : forall (rec : pyres_t) fs st a b cur,
+  pygo rec fs st (a ++ b) cur =
+  match pygo rec fs st a cur with
+  | Some (q, true) => pygo rec fs st b q
+  | Some (q, false) => Some (q ++ b, false)
+  | None => None
+  end.
+Proof.
+  intros rec fs st. induction a as [|c a IH]; intros b cur; simpl; [reflexivity|].
+  destruct (skip_comp c); [apply IH|].
+  destruct (is_dotdot c); [apply IH|].
+  destruct (sym_at fs (cur ++ [c])) as [tgt|]; [|apply IH].
+  destruct (mem_path (cur ++ [c]) st).
+  - f_equal. f_equal. rewrite <- !app_assoc. reflexivity.
+  - destruct (rec ((cur ++ [c]) :: st) (link_base tgt cur) (comps_of tgt)) as [[q [|]]|]; auto.
+    f_equal. f_equal. rewrite <- !app_assoc. reflexivity.
+Qed.
+
+Definition nonskip (cs : list name) : list name := filter (fun c => negb (skip_comp c)) cs.
+
+(* below a missing location realpath is purely lexical *)
+Lemma pygo_below_missing : forall (rec : pyres_t) fs st b n,
+  stat fs n = None -> nodd b -> pygo rec fs st b n = Some (n ++ nonskip b, true).
+Proof.
+  intros rec fs st. induction b as [|c b IH]; intros n Hn Hd; simpl.
+  - rewrite app_nil_r. reflexivity.
+  - unfold nodd in Hd. simpl in Hd. apply orb_false_iff in Hd as [Hc Hb].
+    destruct (skip_comp c) eqn:Es; simpl; [apply IH; assumption|].
+    rewrite Hc.
+    assert (Hp : stat fs (n ++ [c]) = None) by (apply t_stat_none_below; exact Hn).
+    unfold sym_at. rewrite Hp. rewrite IH by assumption. rewrite <- app_assoc. reflexivity.
+Qed.
+
+Section Makedirs.
+  Variable ok : path -> bool.
+  Hypothesis ok_ext : forall p r, ok p = true -> ok (p ++ r) = true.
+  Variable dest : path.
+  Hypothesis ok_dest : forall q, is_prefix dest q = true -> ok q = true.
+  Variable fuel : nat.
+
+  (* a directory that mkdir would create on the way to an accepted path t lies below the destination *)
+  Lemma mkdir_loc_ok : forall fs t nm rest n,
+    guard dest fuel fs t -> is_dir fs dest = true -> t = nm ++ rest -> nodd rest ->
+    kres fuel fs [] false [] nm = Some n -> stat fs n = None -> ok n = true.
+  Proof.
+    intros fs t nm rest n Hg Hd Ht Hr Hk Hn.
+    assert (Hs : sym_at fs n = None) by (unfold sym_at; rewrite Hn; reflexivity).
+    pose proof (kres_pyreal _ _ _ _ _ _ (kres_nofollow _ _ _ _ _ _ Hk Hs)) as Hp.
+    destruct fuel as [|f]; [discriminate|].
+    unfold guard, realpath in Hg. subst t. simpl in Hg, Hp. rewrite pygo_app in Hg. rewrite Hp in Hg.
+    rewrite (pygo_below_missing _ _ _ _ _ Hn Hr) in Hg. simpl in Hg.
+    apply ok_dest.
+    destruct (is_prefix_comparable dest n (n ++ nonskip rest) Hg) as [H|H]; auto.
+    { apply is_prefix_app. eexists; reflexivity. }
+    apply is_prefix_app in H as [x ->]. unfold is_dir in Hd.
+    unfold stat in *. rewrite (t_stat_none_below _ _ x Hn) in Hd. discriminate.
+  Qed.
+
+  Record good (fs0 fs : fsys) (t : list name) : Prop := mkGood {
+    g_inv : inv ok fs0 fs;
+    g_guard : guard dest fuel fs t;
+    g_dir : is_dir fs dest = true
+  }.
+
+  Lemma good_fresh : forall fs0 fs t, good fs0 fs t -> fresh_ok fs.
+  Proof. intros fs0 fs t [Hi _ _]. intros p i. apply (inv_fresh _ _ _ Hi). Qed.
+
+  Lemma mkdir_prefix_good : forall fs0 fs t nm rest m,
+    good fs0 fs t -> t = nm ++ rest -> nodd rest -> good fs0 (fst (sys_mkdir fuel fs nm m)) t.
+  Proof.
+    intros fs0 fs t nm rest m [Hi Hg Hd] Ht Hr. constructor.
+    - unfold sys_mkdir. destruct (kres fuel fs [] false [] nm) as [l|] eqn:Ek; [|exact Hi].
+      destruct (stat fs l) eqn:Es; [exact Hi|]. simpl.
+      apply inv_put_nonleaf; auto; [|intros i; discriminate].
+      eapply mkdir_loc_ok; eauto.
+    - eapply guard_ext; [apply sys_mkdir_symext|exact Hg].
+    - apply sys_mkdir_dir. exact Hd.
+  Qed.
+
+  Lemma makedirs_rev_good : forall r fs0 fs t,
+    good fs0 fs t -> nodd t -> (exists rest, t = rev r ++ rest) ->
+    good fs0 (fst (makedirs_rev fuel fs r)) t.
+  Proof.
+    induction r as [|tail rh IH]; intros fs0 fs t Hg Hn [rest Ht]; simpl; [exact Hg|].
+    assert (Hrh : exists rest', t = rev rh ++ rest').
+    { exists (tail :: rest). rewrite Ht. simpl. rewrite <- app_assoc. reflexivity. }
+    assert (Hrest : nodd rest) by (rewrite Ht in Hn; apply nodd_app in Hn; tauto).
+    destruct (is_nil tail); [apply IH; assumption|].
+    destruct (sys_exists fuel fs (rev (drop_empty_front rh))); simpl.
+    - eapply mkdir_prefix_good; eauto.
+    - pose proof (IH fs0 fs t Hg Hn Hrh) as H1.
+      destruct (makedirs_rev fuel fs rh) as [fs1 [[|]|]]; simpl in *; auto.
+      + destruct (str_eqb tail n_dot); [exact H1|].
+        eapply mkdir_prefix_good; eauto.
+      + destruct (str_eqb tail n_dot); [exact H1|].
+        eapply mkdir_prefix_good; eauto.
+  Qed.
+End Makedirs.
+
+(* ================================================================== Part 9: resolving again after a leaf was unlinked *)
+Lemma is_prefix_snoc : forall l cur c,
+  is_prefix l (cur ++ [c]) = true -> is_prefix l cur = false -> l = cur ++ [c].
+Proof.
+  induction l as [|x l IH]; intros cur c H1 H2; simpl in *; [discriminate|].
+  destruct cur as [|y cur]; simpl in *.
+  - apply andb_true_iff in H1 as [E H1]. apply str_eqb_eq in E. subst.
+    destruct l; [reflexivity|discriminate].
+  - apply andb_true_iff in H1 as [E H1]. rewrite E in H2. simpl in H2.
+    apply str_eqb_eq in E. subst. f_equal. apply IH; assumption.
+Qed.
+
+Lemma is_prefix_removelast : forall l cur, is_prefix l cur = false -> is_prefix l (removelast cur) = false.
+Proof.
+  intros l cur H. destruct (is_prefix l (removelast cur)) eqn:E; auto.
+  destruct cur as [|x cur'] eqn:Ec; [simpl in E; congruence|].
+  rewrite (app_removelast_last x (l:=x :: cur')) in H by discriminate.
+  rewrite (is_prefix_app_r _ _ _ E) in H. discriminate.
+Qed.
+
+Section Removed.
+  Variable fs : fsys.
+  Variable l : path.
+  Variable i0 : N.
+  Hypothesis Hleaf : stat fs l = Some (SLeaf i0).
+  Hypothesis Hl : l <> [].
+  Let fs1 := put fs l None.
+
+  Lemma removed_other : forall q, is_prefix l q = false -> stat fs1 q = stat fs q /\ sym_at fs1 q = sym_at fs q.
+  Proof.
+    intros q Hq. assert (E : stat fs1 q = stat fs q).
+    { unfold stat, fs1, put; simpl. apply t_stat_put_other. exact Hq. }
+    split; [exact E|]. unfold sym_at. rewrite E. reflexivity.
+  Qed.
+
+  Lemma removed_below : forall q, is_prefix l q = true -> stat fs1 q = None.
+  Proof.
+    intros q Hq. unfold stat, fs1, put; simpl.
+    destruct (t_stat_put_at_below l (f_root fs) None q Hl Hq (or_introl eq_refl)) as [[E [H|H]]|[E H]]; exact H.
+  Qed.
+
+  Lemma kgo_removed : forall (kr kr1 : kres_t),
+    (forall st c cs x, is_prefix l c = false -> kr1 st c cs = Some x -> x = l \/ kr st c cs = Some x) ->
+    forall cs st fw cur x, is_prefix l cur = false ->
+      kgo kr1 fs1 st fw cs cur = Some x -> x = l \/ kgo kr fs st fw cs cur = Some x.
+  Proof.
+    intros kr kr1 Hrec. induction cs as [|c rest IH]; intros st fw cur x Hc Hk; simpl in *; [auto|].
+    destruct (skip_comp c); [apply IH; assumption|].
+    destruct (is_dotdot c); [apply IH; [apply is_prefix_removelast|]; assumption|].
+    destruct (is_prefix l (cur ++ [c])) eqn:Ep.
+    - pose proof (removed_below _ Ep) as Hn.
+      assert (Hs : sym_at fs1 (cur ++ [c]) = None) by (unfold sym_at; rewrite Hn; reflexivity).
+      rewrite Hs, Hn in Hk. destruct rest; [|discriminate]. inversion Hk; subst.
+      left. symmetry. apply is_prefix_snoc; assumption.
+    - destruct (removed_other _ Ep) as [Es Ey]. rewrite Ey, Es in Hk.
+      destruct (sym_at fs (cur ++ [c])) as [tgt|].
+      + destruct (is_nil rest && negb fw); [auto|].
+        destruct (mem_path (cur ++ [c]) st); [discriminate|].
+        destruct (kr1 ((cur ++ [c]) :: st) (link_base tgt cur) (comps_of tgt)) as [q|] eqn:Er; [|discriminate].
+        assert (Hb : is_prefix l (link_base tgt cur) = false).
+        { unfold link_base. destruct (is_abs tgt); [|exact Hc]. destruct l; [contradiction|reflexivity]. }
+        destruct (Hrec _ _ _ _ Hb Er) as [E|E].
+        * subst q. destruct rest as [|c2 r2]; [inversion Hk; auto|].
+          unfold is_dir in Hk. rewrite (removed_below l (is_prefix_refl l)) in Hk. discriminate.
+        * rewrite E. destruct rest as [|c2 r2]; [auto|].
+          destruct (is_dir fs1 q) eqn:Ed; [|discriminate].
+          assert (Hq : is_prefix l q = false).
+          { destruct (is_prefix l q) eqn:Eq; auto. unfold is_dir in Ed. rewrite (removed_below _ Eq) in Ed. discriminate. }
+          unfold is_dir in *. rewrite (proj1 (removed_other _ Hq)) in Ed. rewrite Ed.
+          apply IH; assumption.
+      + destruct (stat fs (cur ++ [c])) as [[m|i]|]; auto.
+  Qed.
+
+  Lemma kres_removed : forall fuel st fw cur cs x, is_prefix l cur = false ->
+    kres fuel fs1 st fw cur cs = Some x -> x = l \/ kres fuel fs st fw cur cs = Some x.
+  Proof.
+    induction fuel as [|f IH]; intros st fw cur cs x Hc Hk; simpl in *; [discriminate|].
+    eapply kgo_removed; eauto. intros st' c cs' y Hc' Hy. apply IH; assumption.
+  Qed.
+End Removed.
